@@ -178,10 +178,34 @@ def leg_html(shard, doc, skool, rp):
     if problems:
         report(shard, 'html', problems, rp, 'skool2html in.skool')
 
+def arrange_ctl(rng, text):
+    """The same directives in another arrangement: a control file is a set of directives keyed by address (sna2skool accepts
+    several -c files and merges them), so only the relative order of the lines of one kind at one address (the paragraphs
+    of a comment) carries meaning. Only the comment directives (D, R, N, E) are moved: the block and sub-block directives stay
+    in address order, because a sub-block directive also ends its range and so overrides an earlier one at that address.
+    Returns ([file texts], name of the arrangement)."""
+    lines = text.splitlines()
+    k = rng.random()
+    if k < 0.55:
+        return [text], 'canonical'
+    annot = [l for l in lines if l[:1] in 'DRNE']
+    struct = [l for l in lines if l[:1] not in 'DRNE']
+    if k < 0.7:
+        return ['\n'.join(struct + annot) + '\n'], 'annotations-last'
+    if k < 0.85:
+        return ['\n'.join(struct) + '\n', '\n'.join(annot) + '\n'], 'annotations-in-second-file'
+    # annotations first: every comment directive precedes the block structure it annotates
+    return ['\n'.join(lines[:1] + annot + struct[1:]) + '\n'], 'annotations-first'
+
 def leg_ctl(shard, doc, s, rp):
-    harness.write_file('in.ctl', G.to_ctl(doc))
+    files, arrangement = arrange_ctl(shard.rng('ctl-arrangement', doc['org'], len(doc['entries']), s['sna']['w']), G.to_ctl(doc))
+    harness.write_file('in.ctl', files[0])
     harness.write_file('in.bin', G.to_image(doc))
     argv = sna_argv(doc, s['sna'])
+    if len(files) > 1:
+        harness.write_file('in2.ctl', files[1])
+        argv[argv.index('in.ctl') + 1:argv.index('in.ctl') + 1] = ['-c', 'in2.ctl']
+    shard.hist('ctl_arrangement', arrangement)
     r = harness.run_tool('sna2skool', argv)
     shard.inc('events:sna2skool_runs')
     if not r.ok:
